@@ -115,7 +115,7 @@ macro_rules! header {
 header!(c03_k1_two_chunks_same, 1, [Step::Chunk(1), Step::Chunk(2)]);
 //@ props=C03,C07,C06 tier=quick bounds=K1:header[chunk1,chunk2,chunk1];reader-version-0(older-reader:unknown-chunks-skipped) cap=900
 header!(c03_k1_three_chunks_old_reader, 0, [Step::Chunk(1), Step::Chunk(2), Step::Chunk(1)]);
-//@ props=C03,C07,C06 tier=quick bounds=K1:header[chunk2,chunk0,chunk1];reader-version-2(zero-sized-chunk-in-the-middle) cap=900
+//@ props=C03,C07,C06,C05 tier=quick bounds=K1:header[chunk2,chunk0,chunk1];reader-version-2(zero-sized-chunk-in-the-middle,whose-size-byte-0x00-is-also-the-code-of-an-unknown-step);one-window-per-stored-generation(the-invariant-the-field-readers-index-by) cap=900
 header!(c03_k1_empty_chunk, 2, [Step::Chunk(2), Step::Chunk(0), Step::Chunk(1)]);
 //@ props=C03,C07,C06 tier=quick bounds=K1:header[chunk2,made-optional(pos-1),chunk1];reader-version-3(newer-reader) cap=900
 header!(c03_k1_made_optional, 3, [Step::Chunk(2), Step::MadeOptional(0xff), Step::Chunk(1)]);
@@ -225,7 +225,7 @@ proof! {
 }
 
 proof! {
-    //@ props=C03 tier=quick bounds=K2:removed-field:required->FieldRemovedInSerializedVersion,optional->None cap=900
+    //@ props=C03,C06 tier=quick bounds=K2:removed-field(named-by-the-stored-header,not-by-the-reader):required->FieldRemovedInSerializedVersion,optional->None-whatever-its-added-default cap=900
     fn c03_k2_removed_field() unwind(6) {
         let meta = k2_metadata();
         let data: [u8; 3] = sym::bytes();
@@ -235,6 +235,10 @@ proof! {
         assert!(matches!(a, Ok(x) if x == data[0]));
         let b = d.read_optional_field::<u8>("b", None);
         assert!(matches!(b, Ok(None)), "a removed field reads as absent if optional");
+        // ... whatever default its FieldAdded step declared: the default stands for data written
+        // before the field existed, not for data written after it was removed
+        let b = d.read_optional_field::<u8>("b", Some(Some(9)));
+        assert!(matches!(b, Ok(None)), "a removed optional field took its added-field default instead of reading as absent");
         err_is(d.read_field::<u8>("b", None), |e| matches!(e, Error::FieldRemovedInSerializedVersion(_)), "a required field that was removed must fail with its specific error");
         let f1 = d.read_field::<u8>("f1", None);
         assert!(matches!(f1, Ok(x) if x == data[1]));
@@ -339,6 +343,36 @@ proof! {
             std::mem::forget(d);
             std::mem::forget(ctx);
         }
+        std::mem::forget(meta);
+    }
+}
+
+proof! {
+    // K1 and K2 in one query: no verdict within 900 s / 12 GB on either tree (the windows `new`
+    // computes are symbolic for K2, §2.4), kept as a record; natively it exposes R-C05. The
+    // invariant it would rely on - one window per stored generation - is K1's postcondition
+    // (`c03_k1_empty_chunk`, registered under C05 for that reason).
+    //@ props=C05,C03,C06 tier=off bounds=K1;K2-composed:header[chunk0(byte-0x00),chunk1];reader-version-1:every-stored-generation-keeps-its-own-window-index,field-reads-neither-panic-nor-shift cap=900
+    fn c05_k1_then_fields_zero_chunk() unwind(6) {
+        // 01 | 00 02 | payload: version 1, generation 0 is empty (its size byte 0x00 is also the
+        // code of an unknown step), generation 1 holds one byte
+        let payload: [u8; 2] = sym::bytes();
+        let data = [0x00u8, 0x02, payload[0], payload[1]];
+        let meta = reader_metadata(1);
+        let mut ctx = DeserializationContext::new(&data);
+        match AdtDeserializer::new(&meta, &mut ctx, 1) {
+            Ok(mut d) => {
+                err_is(d.read_field::<u8>("a", None), |e| matches!(e, Error::InputEndedUnexpectedly), "a field of an empty generation must fail with end of input");
+                let f1 = d.read_field::<u8>("f1", None);
+                assert!(matches!(f1, Ok(x) if x == payload[0]), "the generation after an empty one is read from its own window");
+                let o = d.read_optional_field::<u8>("f1", None);
+                match o { Ok(v) => { let _ = v; assert!(false, "window of generation 1 is exhausted"); } Err(e) => std::mem::forget(e) }
+                cover!(true);
+                std::mem::forget(d);
+            }
+            Err(e) => { std::mem::forget(e); assert!(false, "a well-formed evolution header was rejected"); }
+        }
+        std::mem::forget(ctx);
         std::mem::forget(meta);
     }
 }
